@@ -61,7 +61,7 @@ META = {
         [],
     ),
     "C16": _m(
-        "one evaluation = one simulated run of one monitor: PURITY (3..8 calls from a menu of 34 inference / scoring / estimation / search / export / "
+        "one evaluation = one simulated run of one monitor: PURITY (3..8 calls from a menu of 41 inference / scoring / estimation / search / export / "
         "conversion / sampling calls, deep canonical snapshots of every argument before and after), HISTORY (3..12 questions incl. virtual evidence, "
         "refused questions and repeats put to one shared VariableElimination or BeliefPropagation engine; after every step the same question goes to a "
         "fresh engine on a freshly built model) or TWIN (3..8 questions answered under two representations: other labels incl. int / tuple, renamed and "
